@@ -20,9 +20,9 @@ func init() {
 	})
 	prop(&PropertySpec{
 		ID: "C20", Level: "other",
-		Rules: []string{"R20.1", "R20.2", "R20.3", "R20.4", "R11.5", "R11.6", "R11.7", "R11.4", "R01.9"},
+		Rules: []string{"R20.1", "R20.2", "R20.3", "R20.4", "R11.5", "R11.7", "R11.4", "R01.9", "R02.5"},
 		Explanation: "R20.1 the configured limit flows unchanged into bufio.Scanner.Buffer on both entry points (ReadConfig.MaxEventSize under cfg != nil && > 0; Connection.Buffer's arguments are stored and forwarded by the parser factory; Parser.Buffer forwards both to the scanner created in New and used by Next, which is created with the split function); " +
-			"R20.2 the split function returns a token only after the scan stopped at a line break followed by a second line break, or when atEOF holds: the early `request more data` return covers advance==len(data) && !atEOF, so an oversized event makes bufio report ErrTooLong instead of yielding a truncated token; R20.4 more data is requested ((0, nil, nil)) only for empty input or after the scan reached the end of the buffered data without finding the end of an event (so a complete event sitting in the buffer is always delivered, and events below the limit never hit ErrTooLong); R20.3 the token is a sub-slice of the input starting at the skipped-blank-lines offset and ending at advance; R11.5-R11.7/R11.4 the scanner's error is what Read/Connect report; R01.9 the field parser consumes exactly one line per step, so a partially received line is never interpreted.",
+			"R20.2 the split function returns a token only after the scan stopped at a line break followed by a second line break, or when atEOF holds: the early `request more data` return covers advance==len(data) && !atEOF, so an oversized event makes bufio report ErrTooLong instead of yielding a truncated token; R20.4 more data is requested ((0, nil, nil)) only for empty input or after the scan reached the end of the buffered data without finding the end of an event (so a complete event sitting in the buffer is always delivered, and events below the limit never hit ErrTooLong); R20.3 the token is a sub-slice of the input starting at the skipped-blank-lines offset and ending at advance; R11.5/R11.7/R11.4 a scanner that stops (e.g. with ErrTooLong) always ends the iteration with an error; R02.5 delivered values own their memory (they are not views of the scanner's reused buffer); R01.9 the field parser consumes exactly one line per step, so a partially received line is never interpreted.",
 		NotDecided: "panic freedom of the index arithmetic; the exact number of bytes bufio reads before ErrTooLong; 'intact below the limit'.",
 	})
 	prop(&PropertySpec{
